@@ -160,9 +160,16 @@ func recC02(c *ctx) {
 				scribble(gp)
 				scribble(gk.Public().(ed25519.PublicKey))
 				scribble(gk.Seed())
-				seed2 := append([]byte(nil), seed...)
+				// the seed as a 32-byte window into a larger caller buffer (spare capacity holding live data): the key must be the
+				// caller's own copy and nothing behind the window may be written
+				frame := append(append([]byte(nil), seed...), bytes.Repeat([]byte{0x5c}, 64)...)
+				seed2 := frame[:32]
 				k2 := ed25519.NewKeyFromSeed(seed2)
-				scribble(seed2)
+				tailOK := bytes.Equal(frame[32:], bytes.Repeat([]byte{0x5c}, 64))
+				scribble(frame)
+				if !tailOK {
+					c.w.Emit(vt.Ev{"op": "sigcheck", "cfg": c.cfg, "kind": "accept", "res": []bool{false}, "seed": vt.B(seed), "what": "NewKeyFromSeed wrote behind the seed it was given"})
+				}
 				sA, eA := gk.Sign(nil, msg, &ed25519.Options{Context: string(ctxb), Hash: o.Hash})
 				sB, eB := k2.Sign(nil, msg, &ed25519.Options{Context: string(ctxb), Hash: o.Hash})
 				sC, eC := priv.Sign(nil, msg, &ed25519.Options{Context: string(ctxb), Hash: o.Hash})
